@@ -1,4 +1,5 @@
 import Proofs.Lemmas.PoolCor
+import Proofs.Lemmas.PoolOnes
 /-!
 # C20 — operation pools keep what they are given and never panic
 
@@ -10,6 +11,10 @@ specification answers next to the answers of the real Go code.
 -/
 namespace Zrnt.Proofs.C20
 open Zrnt Zrnt.Pool Zrnt.Pool.Spec
+
+/-- two attestation data used in the examples and witnesses -/
+def d1 : AttData := ⟨1, 0, 0, 1⟩
+def d2 : AttData := ⟨1, 0, 0, 2⟩
 
 /-! ## 1. no panic -/
 
@@ -247,6 +252,36 @@ theorem search_sound (ops : List Op) (s i : Option Nat) :
   obtain ⟨o, ho, heq⟩ := outsEquiv_getElem? (pools_refine_spec ops) j _ hout
   exact ⟨hm, j, c, hj, by rw [ho, OutEquiv.ok_iff.mp heq], hpr⟩
 
+/-- **An exact duplicate is absorbed.** If `AddAttestation(att, committee)` was answered `ok` — an
+individual attestation, the first aggregate of some data, or a further aggregate that added participants —
+then the same call once more is answered `ok` again and is unobservable: every later operation sequence
+gets equivalent answers with and without the duplicate. -/
+theorem dup_absorbed (ops rest : List Op) (a : Att) (c : List Nat)
+    (hok : answer (reach ops) (.att a c) = .ok) :
+    let w1 := after (reach ops) (.att a c)
+    answer w1 (.att a c) = .ok ∧
+      OutsEquiv ((after w1 (.att a c)).run Cfg.fixed rest).2 (w1.run Cfg.fixed rest).2 := by
+  intro w1
+  have h := reach_related ops
+  have hspec : outOfBool (Spec.add (sreach ops).att a c).2 = .ok := spec_ok_of_answer_ok h hok
+  have hidem := spec_add_idem (outOfBool_eq_ok.mp hspec)
+  have h1 : PoolsInv w1 ((sreach ops).step (.att a c)).1 := after_related h (.att a c)
+  -- the specification state does not move on the duplicate
+  have hstep : (((sreach ops).step (.att a c)).1.step (.att a c)) = (((sreach ops).step (.att a c)).1, .ok) := by
+    show (let (l, b) := Spec.add (Spec.add (sreach ops).att a c).1 a c
+          (({ ((sreach ops).step (.att a c)).1 with att := l } : SPools), outOfBool b)) = _
+    rw [hidem]; rfl
+  have h2 : PoolsInv (after w1 (.att a c)) ((sreach ops).step (.att a c)).1 := by
+    have := after_related h1 (.att a c); rwa [hstep] at this
+  refine ⟨answer_ok_of_spec_ok h1 (by rw [hstep]), ?_⟩
+  exact (run_sim h2 rest).2.trans (run_sim h1 rest).2.symm
+
+/-- non-vacuity, also for the second and third aggregate of a data (`Search` still returns 3 items) -/
+example : (Pools.run Cfg.fixed (Pools.new Cfg.fixed)
+    [.att ⟨d1, [0x13], 5⟩ [1, 2, 3, 4], .att ⟨d1, [0x16], 6⟩ [1, 2, 3, 4], .att ⟨d1, [0x1c], 7⟩ [1, 2, 3, 4],
+     .att ⟨d1, [0x1c], 7⟩ [1, 2, 3, 4], .att ⟨d1, [0x16], 6⟩ [1, 2, 3, 4], .search none none]).2
+    = [.ok, .ok, .ok, .ok, .ok, .atts [⟨d1, [0x13], 5⟩, ⟨d1, [0x16], 6⟩, ⟨d1, [0x1c], 7⟩]] := by decide
+
 /-- **A conflicting second vote is reported.** After an individual attestation by validator `v` for data
 `d₁` was accepted, a later individual attestation by `v` with the same target epoch for different data
 `d₂` is answered with an error — as long as no `Prune e` with `target < e − 1` came in between. -/
@@ -371,6 +406,11 @@ theorem singleParticipant_spec (a : Bits) (c : List Nat) :
 
 example : singleParticipant [0x0a] [7, 8, 9] = .ok 8 := by decide
 
+/-- `bitfields.BitlistOnesCount` counts the set bits below the delimiter bit — for every byte string. -/
+theorem onesCount_spec (b : Bits) : onesCount b = BitSpec.onesCount (toBools b) := onesCount_spec' b
+
+example : onesCount [0xff, 0x03] = 9 ∧ onesCount [0x01] = 0 := by decide
+
 /-- `bitfields.BitIndex` is the position of the highest set bit. -/
 theorem bitIndex_spec (v : UInt8) (h : v ≠ 0) : bitIndex v = Nat.log2 v.toNat := bitIndex_eq_log2 v h
 
@@ -384,8 +424,6 @@ theorem getBit_spec (b : Bits) (i : Nat) (h : i < bitlistLen b) :
 
 /-! ## 6. the defects of the code before the `fix:` commits (`Cfg.old`), each on a concrete witness -/
 
-def d1 : AttData := ⟨1, 0, 0, 1⟩
-def d2 : AttData := ⟨1, 0, 0, 2⟩
 
 /-- `NewAttestationPool` left `aggPerValidator` nil: the first aggregate attestation panics. -/
 theorem old_first_aggregate_panics :
